@@ -123,6 +123,26 @@ def run(ck):
                 return f, names
         return "x", ["x"]
 
+    # directed values of the derivative: every rule at a point of its domain, the ExponentDerivative guard
+    def ereq(v, env, f):
+        reqs.append(("directed", "E %s;%s;%s" % (v, L.bind_str(env), f), v, f))
+    for u in tab["unary"]:
+        if u[2]:
+            for xa in (0.3, 0.7):
+                ereq("x", {"x": xa, "y": 1.5}, "%s(x)" % u[0])
+                ereq("x", {"x": xa, "y": 1.5}, "%s(x*y/2)" % u[0])
+    for xa, xb in ((0.0, 2.0), (2.0, 3.0), (0.5, -1.0), (0.0, -1.0), (1.5, 0.0)):
+        for v in ("x", "y"):
+            ereq(v, {"x": xa, "y": xb}, "x**y")
+            ereq(v, {"x": xa, "y": xb}, "(x*y+x)**(y/x+1)" if xa != 0 else "x**(2*y)")
+    for op in ("+", "-", "*", "/"):
+        for v in ("x", "y"):
+            ereq(v, {"x": 1.25, "y": -0.75}, "x %s y" % op)
+            ereq(v, {"x": 1.25, "y": -0.75}, "sin(x) %s x*y" % op)
+    for n in list(range(-18, 19)) + [33, -33]:
+        ereq("x", {"x": 1.1}, "power<%d>(x)" % n)
+    for f in ("x>0 ? x*x : -x", "x<0 ? x*x : -x", "-x", "x>0 && y>0 ? x*y : x+y"):
+        ereq("x", {"x": 1.5, "y": 2.0}, f)
     g = L.Gen(rng, tab, diff_only=True)
     for _ in range(n_d):
         f, names = with_var(g, 6)
@@ -211,8 +231,9 @@ def run(ck):
         if wit:
             rep["failing_point"] = wit
             key = "derivative:" + name
+            shown = rep.get("code_derivative", impl[i]) if wit["formula"] == rep.get("minimal_formula") else impl[i]
             what = "d/d%s of '%s' returned by the code is %s = %r at %s; the derivative is %r" % (
-                wit["variable"], wit["formula"], rep.get("code_derivative", impl[i])[:100], wit["code_derivative_value"],
+                wit["variable"], wit["formula"], shown[:100], wit["code_derivative_value"],
                 {k: v for k, v in wit["point"].items() if k in wit["formula"] or k == wit["variable"]},
                 wit["true_derivative_value(model, proved sound)"] if wit["true_derivative_value(model, proved sound)"] is not None
                 else wit["central_finite_difference_of_code_values"])
@@ -241,7 +262,7 @@ def run(ck):
         "rule": "distinct = distinct canonical implementation answers (rendered derivative / error class / value bits)",
         "exhaustive": False, "disagreements": disagreements,
         "traces_validated_against_impl": len(reqs) - hist["skipped-by-model"],
-        "streams": {"corpus": ncorpus, "rules": sum(1 for r in reqs if r[0] == "rule"), "derive": n_d, "unsupported": n_u, "value": n_e},
+        "streams": {"corpus": ncorpus, "rules": sum(1 for r in reqs if r[0] == "rule"), "directed": sum(1 for r in reqs if r[0] == "directed"), "derive": n_d, "unsupported": n_u, "value": n_e},
         "answers": hist, "error_kinds": errk, "generator": {"derive": g.stats, "value": ge.stats},
         "rules_in_code": sorted(code_rules), "samples": samples,
     })
